@@ -175,11 +175,30 @@ func deathSig(stderr string, code int) string {
 		}
 		kind = "fatal:" + l
 	}
-	ms := reFrameLine.FindAllStringSubmatch(stderr, 60)
-	set := map[string]bool{}
+	nFrames := 60
+	if kind == "fatal:stack-overflow" {
+		nFrames = 600
+	}
+	ms := reFrameLine.FindAllStringSubmatch(stderr, nFrames)
+	set := map[string]int{}
 	for _, m := range ms {
 		f := regexp.MustCompile(`\.func[0-9]+(\.[0-9]+)*$`).ReplaceAllString(m[1], ".func")
-		set[f] = true
+		set[f]++
+	}
+	if kind == "fatal:stack-overflow" {
+		// name the recursion, not the leaf the stack happened to end in: keep the functions of the cycle
+		// (those seen about as often as the most frequent one)
+		max := 0
+		for _, n := range set {
+			if n > max {
+				max = n
+			}
+		}
+		for f, n := range set {
+			if n < max-1 || n < 3 {
+				delete(set, f)
+			}
+		}
 	}
 	var fs []string
 	for f := range set {
